@@ -2,6 +2,7 @@ package props
 
 import (
 	"fmt"
+	"math"
 	"strings"
 
 	"go.flow.arcalot.io/pluginsdk/schema"
@@ -551,6 +552,39 @@ func c15Directed(c *wk.Ctx) {
 		pair{"object{a:int} <- typed object{a:string}", objOf(intT), typedObjOf(strT), true},
 		pair{"typed object{a:int} <- object{a:string}", typedObjOf(intT), objOf(strT), true},
 		pair{"typed list[string] 5..9 <- list[string] 0..2 (sizes cannot meet)", typedListOf(i64(5), i64(9)), listOf(i64(0), i64(2)), true})
+	// scopes whose roots differ, where the producer also declares an object named like the consumer's root: what is
+	// compared is root against root
+	itemObj := func() *schema.ObjectSchema {
+		return schema.NewObjectSchema("Item", map[string]*schema.PropertySchema{"sku": prop(strT(), true)})
+	}
+	itemScope := func() schema.Type { return schema.NewScopeSchema(itemObj()) }
+	orderScope := func() schema.Type {
+		return schema.NewScopeSchema(schema.NewObjectSchema("Order", map[string]*schema.PropertySchema{
+			"id": prop(intT(), true), "items": prop(schema.NewListSchema(schema.NewRefSchema("Item", nil), nil, nil), false)}), itemObj())
+	}
+	embed := func(f func() schema.Type) func() schema.Type {
+		return func() schema.Type {
+			return schema.NewScopeSchema(schema.NewObjectSchema("Outer", map[string]*schema.PropertySchema{"inner": prop(f(), true)}))
+		}
+	}
+	pairs = append(pairs,
+		pair{"scope(Item) <- scope(Order + Item): the producer's root is another object", itemScope, orderScope, true},
+		pair{"scope(Order + Item) <- scope(Item)", orderScope, itemScope, true},
+		pair{"scope(Item) <- scope(Item)", itemScope, itemScope, false},
+		pair{"scope(Order + Item) <- scope(Order + Item)", orderScope, orderScope, false},
+		pair{"Outer{inner: scope(Item)} <- Outer{inner: scope(Order + Item)}", embed(itemScope), embed(orderScope), true})
+	// float ranges that do not meet, however small the gap or the numbers
+	f64 := func(v float64) *float64 { return &v }
+	floatOf := func(min, max *float64) func() schema.Type {
+		return func() schema.Type { return schema.NewFloatSchema(min, max, nil) }
+	}
+	pairs = append(pairs,
+		pair{"float 0..2e-10 <- float 5e-10..9e-10 (disjoint)", floatOf(f64(0), f64(2e-10)), floatOf(f64(5e-10), f64(9e-10)), true},
+		pair{"float 0..1 <- float nextafter(1)..2 (disjoint by one ulp)", floatOf(f64(0), f64(1)), floatOf(f64(math.Nextafter(1, 2)), f64(2)), true},
+		pair{"float 1e300..2e300 <- float 3e300..4e300 (disjoint)", floatOf(f64(1e300), f64(2e300)), floatOf(f64(3e300), f64(4e300)), true},
+		pair{"float 0..1 <- float 1..2 (they meet at 1)", floatOf(f64(0), f64(1)), floatOf(f64(1), f64(2)), false},
+		pair{"float ..-1e-12 <- float 0.. (disjoint)", floatOf(nil, f64(-1e-12)), floatOf(f64(0), nil), true},
+		pair{"list of float 0..1e-12 <- list of float 2e-12..3e-12", inList(floatOf(f64(0), f64(1e-12))), inList(floatOf(f64(2e-12), f64(3e-12))), true})
 	for _, pr := range pairs {
 		c.Note("ValidateCompatibility directed: " + pr.name)
 		c.Count("pairs")
